@@ -37,6 +37,20 @@ Record sample := {
 }.
 Record target := { t_coords : list Q; t_code : option Q }.
 
+(* a sample as the Db holds it: coordinates and external drifts may be undefined (TEST).  [sample] above is
+   its total projection (undefined coordinate read as 0; such a sample never reaches the distance
+   computation).  The record [sample] is kept because coq/C04 and coq/C05 build on it. *)
+Record xsample := {
+  x_active : bool;
+  x_coords : list (option Q);   (* ELoc::X, None = undefined *)
+  x_fext   : list (option Q);   (* ELoc::F external drifts; [] when the Db has none *)
+  x_vars   : list (option Q);
+  x_code   : option Q
+}.
+Definition oq0 (o : option Q) : Q := match o with Some v => v | None => 0 end.
+Definition x_total (x : xsample) : sample :=
+  {| s_active := x_active x; s_coords := map oq0 (x_coords x); s_vars := x_vars x; s_code := x_code x |}.
+
 (* extra pair checkers (NeighMoving::_bipts) *)
 Inductive checker :=
 | ChkBench (idim : nat) (width : Q)          (* |T1[idim] - T2[idim]| <= width *)
@@ -316,4 +330,79 @@ Definition moving_ball (p : params) (t : target) (samples : list sample) (elligi
   else moving_from p (length samples)
          (cand_loop_ball p t (map (fun i => (i, nth i samples dummy_sample)) elligibles)).
 
+(* ------------------------------------------------------------------ samples with undefined coordinates / drifts
+   ANeigh::_discardUndefined (ANeigh.cpp:352, as of fix C05_4): a sample with an undefined coordinate or an
+   undefined external drift is discarded, then the rule on the variables applies *)
+Definition discard_undefined_x (x : xsample) : bool :=
+  negb (forallb is_def (x_coords x)) || negb (forallb is_def (x_fext x)) || discard_undefined (x_total x).
+Definition cand_of_x (p : params) (t : target) (ix : nat * xsample) : option cand :=
+  let x := snd ix in
+  if negb (x_active x) then None                      (* if (!_dbin->isActive(iech)) continue; *)
+  else if discard_undefined_x x then None             (* if (_discardUndefined(iech)) continue; *)
+  else cand_of p t (fst ix, x_total x).               (* rest of the loop body, on defined coordinates *)
+Fixpoint cand_loop_x (p : params) (t : target) (l : list (nat * xsample)) : list cand :=
+  match l with
+  | [] => []
+  | ix :: r => match cand_of_x p t ix with
+               | Some c => c :: cand_loop_x p t r
+               | None => cand_loop_x p t r
+               end
+  end.
+Definition moving_x (p : params) (t : target) (xs : list xsample) : result :=
+  let nech := length xs in
+  if (Z.of_nat nech <? p_nmini p)%Z then fail 1
+  else moving_from p nech (cand_loop_x p t (enum xs)).
+
+Definition cand_of_ball_x (p : params) (t : target) (ix : nat * xsample) : option cand :=
+  if discard_undefined_x (snd ix) then None else cand_of_ball p t (fst ix, x_total (snd ix)).
+Fixpoint cand_loop_ball_x (p : params) (t : target) (l : list (nat * xsample)) : list cand :=
+  match l with
+  | [] => []
+  | ix :: r => match cand_of_ball_x p t ix with
+               | Some c => c :: cand_loop_ball_x p t r
+               | None => cand_loop_ball_x p t r
+               end
+  end.
+Definition dummy_xsample : xsample :=
+  {| x_active := false; x_coords := []; x_fext := []; x_vars := []; x_code := None |}.
+Definition moving_ball_x (p : params) (t : target) (xs : list xsample) (elligibles : list nat) : result :=
+  if (Z.of_nat (length xs) <? p_nmini p)%Z then fail 1
+  else moving_from p (length xs)
+         (cand_loop_ball_x p t (map (fun i => (i, nth i xs dummy_xsample)) elligibles)).
+
 End Moving.
+
+(* ------------------------------------------------------------------ NeighMoving::summary  (NeighMoving.cpp:406)
+   for a freshly attached neighbourhood and one target (the member arrays hold what select() left):
+   tab[0] = number of ranks; tab[1], tab[2] = max / min of _movingDst[0 .. nsel) -- the FIRST nsel entries of
+   the sorted candidate distances, whatever samples were kept --; tab[3], tab[4] from _movingNsect, which
+   _movingSelect fills BEFORE the round-robin reduction and does not touch when nmaxi <= 0 or after an exit. *)
+Definition stage_nsmax (p : params) (cands : list cand) : st :=
+  let sorted := map (fun c => (c, true)) (sort_cands cands) in
+  if flag_sector p && (0 <? p_nsmax p)%Z
+  then sector_nsmax (p_nsect p) (Z.to_nat (p_nsmax p)) sorted else sorted.
+Definition moving_nsect (p : params) (cands : list cand) : list nat :=
+  if (Z.of_nat (length cands) <? p_nmini p)%Z || (p_nmaxi p <=? 0)%Z then repeat 0%nat (p_nsect p)
+  else sect_counts (p_nsect p) (stage_nsmax p cands).
+Definition omax (a : option Q) (x : Q) : option Q :=
+  match a with None => Some x | Some y => Some (if qltb y x then x else y) end.
+Definition omin (a : option Q) (x : Q) : option Q :=
+  match a with None => Some x | Some y => Some (if qltb x y then x else y) end.
+(* the loop over sectors, then the extra step on sector 0 *)
+Definition cempty_step (st : nat * nat) (c : nat) : nat * nat :=
+  let '(n_empty, number) := st in
+  if (0 <? c)%nat then (0%nat, number)
+  else (S n_empty, if (number <? S n_empty)%nat then S n_empty else number).
+Definition cempty (counts : list nat) : nat :=
+  let st := fold_left cempty_step counts (0%nat, 0%nat) in
+  snd (match counts with [] => st | c0 :: _ => cempty_step st c0 end).
+Record summary := { sm_number : nat; sm_max2 : option Q; sm_min2 : option Q; sm_nonempty : nat; sm_cempty : nat }.
+(* [res] = result of the selection, [cands] = the candidates it was computed from; squared distances *)
+Definition moving_summary (p : params) (cands : list cand) (res : result) : summary :=
+  let nsel := length (r_ranks res) in
+  let dst := firstn nsel (map c_d2 (sort_cands cands)) in
+  let counts := moving_nsect p cands in
+  {| sm_number := nsel;
+     sm_max2 := fold_left omax dst None; sm_min2 := fold_left omin dst None;
+     sm_nonempty := length (filter (fun c => (0 <? c)%nat) counts);
+     sm_cempty := cempty counts |}.
